@@ -8,6 +8,8 @@ pub type R<T> = Result<T, String>;
 pub enum Bnd {
     /// a value held in a Coq variable / term
     Val { term: String, ty: Ty },
+    /// a local holding a function `&Node -> Option<NodeId>` (a macro parameter): applied as a Coq function
+    Fun { term: String },
     /// an alias of the arena slot with the given (nat) index term: `&mut arena[i]`, `&mut self.nodes[i]`
     Slot { idx: String },
 }
@@ -53,12 +55,13 @@ pub struct Cx {
     pub cur_key: String,
     pub lifted: Vec<String>, // loop fixpoints lifted out of the current function
     pub self_var: String,    // current Coq term for a MutVal self
+    pub fun_params: Vec<String>, // function-valued macro parameters used by the body
 }
 
 impl Cx {
     pub fn new(sigs: HashMap<String, Sig>, cur_key: &str) -> Cx {
         let cur = sigs[cur_key].clone();
-        Cx { scopes: vec![HashMap::new()], fresh: 0, sigs, cur, cur_key: cur_key.to_string(), lifted: vec![], self_var: "v_self".into() }
+        Cx { scopes: vec![HashMap::new()], fresh: 0, sigs, cur, cur_key: cur_key.to_string(), lifted: vec![], self_var: "v_self".into(), fun_params: vec![] }
     }
     pub fn push(&mut self) {
         self.scopes.push(HashMap::new());
